@@ -457,6 +457,7 @@ EXPLANATION = (
     "failure handler) and every self.* store follows its normal exit. R3: the extension maps every non-zero library result "
     "to an exception. R4: the forward-only comparison guards the write loop. Does NOT decide that the predicates are "
     "arithmetically right.")
+TECHNIQUE = ('clang JSON AST + Python ast; CFG reachability between effects and input-rejection returns; effect summaries over the call tree; dominance')
 ASSUMPTIONS = ["the effect table (clib.EFFECT_CALLS, cursor fields) is complete for this library",
                "gmtime/snprintf/strcmp are effect-free", "clang 14 AST and CPython ast are faithful"]
 FILES = [C_LIB, C_EXT, "python/digital_rf/digital_rf_hdf5.py"]
